@@ -58,6 +58,12 @@ func emitMapSites(repo string) {
 		os.Exit(1)
 	}
 	count := map[mrSite]int{}
+	env := map[mrSite]int{}
+	// other ways for a run to depend on anything but its inputs: goroutines, select, clock, random numbers, process
+	// identity, environment, working directory
+	watch := map[string]bool{"time.Now": true, "time.Since": true, "time.Until": true, "os.Getpid": true, "os.Getppid": true,
+		"os.Getenv": true, "os.LookupEnv": true, "os.Environ": true, "os.Hostname": true, "os.Getwd": true, "os.UserHomeDir": true,
+		"os.TempDir": true, "os.Executable": true, "filepath.Abs": true, "build.Import": true, "build.ImportDir": true}
 	for _, p := range pkgs {
 		if len(p.Errors) > 0 {
 			fmt.Fprintln(os.Stderr, "facts: mapsites: package errors in", p.PkgPath, p.Errors[0])
@@ -80,6 +86,23 @@ func emitMapSites(repo string) {
 					name = detFuncName(fd)
 				}
 				ast.Inspect(scope, func(n ast.Node) bool {
+					switch v := n.(type) {
+					case *ast.GoStmt:
+						env[mrSite{rel, name, "go"}]++
+					case *ast.SelectStmt:
+						env[mrSite{rel, name, "select"}]++
+					case *ast.CallExpr:
+						if sel, ok := v.Fun.(*ast.SelectorExpr); ok {
+							if id, ok := sel.X.(*ast.Ident); ok {
+								if pn, ok := p.TypesInfo.Uses[id].(*types.PkgName); ok {
+									full := pn.Imported().Name() + "." + sel.Sel.Name
+									if watch[full] || pn.Imported().Path() == "math/rand" || pn.Imported().Path() == "math/rand/v2" || pn.Imported().Path() == "crypto/rand" {
+										env[mrSite{rel, name, full}]++
+									}
+								}
+							}
+						}
+					}
 					rs, ok := n.(*ast.RangeStmt)
 					if !ok {
 						return true
@@ -118,6 +141,30 @@ func emitMapSites(repo string) {
 			sep = ""
 		}
 		fmt.Printf("  (%s, %s, %s, %d)%s\n", detLeanStr(s.pkg), detLeanStr(s.fn), detLeanStr(s.expr), count[s], sep)
+	}
+	fmt.Println("]")
+	var es []mrSite
+	for s := range env {
+		es = append(es, s)
+	}
+	sort.Slice(es, func(i, j int) bool {
+		a, b := es[i], es[j]
+		if a.pkg != b.pkg {
+			return a.pkg < b.pkg
+		}
+		if a.fn != b.fn {
+			return a.fn < b.fn
+		}
+		return a.expr < b.expr
+	})
+	fmt.Println("\n/-- (package, enclosing function, construct) of every goroutine / select / clock / random / process / environment / working-directory use -/")
+	fmt.Println("def envSites : List (String × String × String) := [")
+	for i, s := range es {
+		sep := ","
+		if i == len(es)-1 {
+			sep = ""
+		}
+		fmt.Printf("  (%s, %s, %s)%s\n", detLeanStr(s.pkg), detLeanStr(s.fn), detLeanStr(s.expr), sep)
 	}
 	fmt.Println("]")
 }
